@@ -19,6 +19,17 @@ def main():
     rc = run([os.path.join(BIN, "extract"), "--repo", REPO, "--out", os.path.join(LEAN, "BandVerif", "Generated")], env=GOENV)
     if rc: return rc
     cfgs = [json.load(open(p)) for p in sorted(glob.glob(os.path.join(ROOT, "props", "C*.json")))]
+    # generators that are compiled against / load the current tree
+    for g in sorted({g for c in cfgs for g in c.get("generate_with", [])}):
+        if g.startswith("tools/"):
+            name = g[len("tools/"):]
+            rc = run(["go", "build", "-o", os.path.join(BIN, name), "."], cwd=os.path.join(ROOT, "tools", name), env=GOENV)
+        else:
+            name = g
+            rc = run(["go", "build", "-tags", "verif", "-o", os.path.join(BIN, name), "./cmd/" + name], cwd=HARNESS, env=GOENV)
+        if rc: return rc
+        rc = run([os.path.join(BIN, name), "--repo", REPO, "--out", os.path.join(LEAN, "BandVerif", "Generated")], env=GOENV)
+        if rc: return rc
     targets = sorted({c["lean_props"] for c in cfgs} | {c["driver"] for c in cfgs if c.get("driver")})
     rc = run(["lake", "build"] + targets, cwd=LEAN)
     if rc: return rc
